@@ -223,7 +223,9 @@ func runC17(c *Check) {
 				}
 			}
 		}
-		if app == nil || mk == nil {
+		if (app == nil || mk == nil) && c.placesByStamp(fp) {
+			// decided by the stamp form
+		} else if app == nil || mk == nil {
 			c.undecided("C17-R5", "places", p.relFile(fp.Pos()), "fillPlaces keeps no per-stack set of the sources already recorded (no map is created in it): it cannot be shown that a source revisited later in the same stack (mutual recursion) is listed once, at its outermost occurrence")
 		} else {
 			// "the source is already in the set": m[src] for a map to bool, or the ok flag of a
@@ -268,7 +270,8 @@ func runC17(c *Check) {
 	// two different sources share one entry (equal names in different files).
 	if mis := c.anchorFn("C17-R6", "internal/report", "(*StackSet).makeInitialStacks"); mis != nil {
 		n := 0
-		forEachFuncAndAnon(mis, func(g *ssa.Function) {
+		// the interning code: a closure of makeInitialStacks, or a helper/method it calls
+		for _, g := range withHelpers(mis, 2) {
 			for _, b := range g.Blocks {
 				for _, ins := range b.Instrs {
 					lk, ok := ins.(*ssa.Lookup)
@@ -310,7 +313,7 @@ func runC17(c *Check) {
 					}
 				}
 			}
-		})
+		}
 		if n != 1 {
 			c.undecided("C17-R6", "intern", p.relFile(mis.Pos()), fmt.Sprintf("expected one memo-table lookup in makeInitialStacks, found %d", n))
 		}
@@ -543,4 +546,204 @@ func (n *nonNil) check(v ssa.Value, depth int, seen map[ssa.Value]bool) string {
 		return "the result of " + x.Call.Value.Name()
 	}
 	return "a value of unknown origin (" + describeValue(v) + ")"
+}
+
+// placesByStamp: the per-stack "already listed" test written with stamps instead of a set:
+// marks[src] == stamp is tested, marks[src] = stamp is stored, and the place is appended only
+// when they differed, where stamp = (index of the stack in the loop over all stacks) + k with
+// k >= 1 (so the zero value of a fresh mark never equals a stamp and two stacks never share
+// one).  Returns false when fillPlaces is not of this form.
+func (c *Check) placesByStamp(fp *ssa.Function) bool {
+	p := c.P
+	for _, g := range withHelpers(fp, 2) {
+		for _, b := range g.Blocks {
+			for _, ins := range b.Instrs {
+				app, ok := ins.(*ssa.Call)
+				if !ok {
+					continue
+				}
+				if bi, ok := app.Call.Value.(*ssa.Builtin); !ok || bi.Name() != "append" || !isFieldLoad(app.Call.Args[0], "report.StackSource", "Places") {
+					continue
+				}
+				// the test marks[src] == stamp
+				for _, b2 := range g.Blocks {
+					iff, ok := b2.Instrs[len(b2.Instrs)-1].(*ssa.If)
+					if !ok {
+						continue
+					}
+					cmp, ok := iff.Cond.(*ssa.BinOp)
+					if !ok || (cmp.Op != token.EQL && cmp.Op != token.NEQ) {
+						continue
+					}
+					ld, ok := cmp.X.(*ssa.UnOp)
+					if !ok || ld.Op != token.MUL {
+						continue
+					}
+					mark, ok := ld.X.(*ssa.IndexAddr)
+					if !ok {
+						continue
+					}
+					stamp := cmp.Y
+					// the store marks[src] = stamp on the way to the append
+					stored := false
+					for _, b3 := range g.Blocks {
+						for _, i3 := range b3.Instrs {
+							st, ok := i3.(*ssa.Store)
+							if !ok || st.Val != stamp {
+								continue
+							}
+							ia, ok := st.Addr.(*ssa.IndexAddr)
+							if ok && ia.X == mark.X && ia.Index == mark.Index && (instrDominates(st, app) || st.Block() == app.Block()) {
+								stored = true
+							}
+						}
+					}
+					if !stored {
+						continue
+					}
+					reach := reachUnder(g, func(cond ssa.Value) int {
+						if cond == ssa.Value(cmp) {
+							if cmp.Op == token.EQL {
+								return 1
+							}
+							return -1
+						}
+						return 0
+					})
+					add, isAdd := stamp.(*ssa.BinOp)
+					k := int64(0)
+					if isAdd && add.Op == token.ADD {
+						k, _ = constInt(add.Y)
+					}
+					switch {
+					case reach[app.Block()]:
+						c.bad("C17-R5", "places", p.relFile(app.Pos()), "fillPlaces appends a place for a source that was already seen in the same stack: a recursive stack is listed more than once")
+					case !isAdd || k < 1 || !derivesFromStackIndex(p, add.X, 0):
+						c.bad("C17-R5", "places", p.relFile(cmp.Pos()), "the stamp that marks a source as listed for the current stack is not the stack's index plus a positive constant: two stacks could share a stamp (or the zero value of a fresh mark could equal one), and a source would miss a stack")
+					default:
+						c.ok("C17-R5", "places", p.relFile(app.Pos()), "each source lists a stack once, at its first occurrence", fmt.Sprintf("the append is unreachable when the source's mark equals the stamp of the current stack (stack index + %d), which is stored before the append", k))
+					}
+					return true
+				}
+			}
+		}
+	}
+	return false
+}
+
+// derivesFromStackIndex: v is the index of a forward loop over StackSet.Stacks, possibly
+// handed on through parameters, struct fields and literals.
+func derivesFromStackIndex(p *Program, v ssa.Value, depth int) bool {
+	if depth > 6 {
+		return false
+	}
+	if bound, ok := forwardIndex(v); ok {
+		return fieldLoadOf(lenSlice(bound), "report.StackSet", "Stacks")
+	}
+	all := func(vals []ssa.Value, ok bool) bool {
+		if !ok || len(vals) == 0 {
+			return false
+		}
+		for _, e := range vals {
+			if !derivesFromStackIndex(p, e, depth+1) {
+				return false
+			}
+		}
+		return true
+	}
+	// fv: the values field `field` of struct value x can hold, following by-value parameters
+	// to the arguments of every call and local copies to what was copied
+	var fv func(x ssa.Value, field int, d int) ([]ssa.Value, bool)
+	fv = func(x ssa.Value, field int, d int) ([]ssa.Value, bool) {
+		if d > 4 {
+			return nil, false
+		}
+		switch y := x.(type) {
+		case *ssa.Parameter:
+			fn := y.Parent()
+			calls, asValue := directCallSites(p, fn)
+			if asValue || len(calls) == 0 {
+				return nil, false
+			}
+			var out []ssa.Value
+			for i, q := range fn.Params {
+				if q != y {
+					continue
+				}
+				for _, call := range calls {
+					if i >= len(call.Common().Args) {
+						return nil, false
+					}
+					sub, ok := fv(call.Common().Args[i], field, d+1)
+					if !ok {
+						return nil, false
+					}
+					out = append(out, sub...)
+				}
+			}
+			return out, true
+		case *ssa.UnOp:
+			al, isAlloc := y.X.(*ssa.Alloc)
+			if y.Op != token.MUL || !isAlloc || al.Referrers() == nil {
+				return nil, false
+			}
+			var out []ssa.Value
+			for _, r := range *al.Referrers() {
+				switch z := r.(type) {
+				case *ssa.FieldAddr:
+					if z.Field != field || z.Referrers() == nil {
+						continue
+					}
+					for _, r2 := range *z.Referrers() {
+						if st, ok := r2.(*ssa.Store); ok && st.Addr == ssa.Value(z) {
+							out = append(out, st.Val)
+						}
+					}
+				case *ssa.Store:
+					if z.Addr == ssa.Value(al) {
+						sub, ok := fv(z.Val, field, d+1)
+						if !ok {
+							return nil, false
+						}
+						out = append(out, sub...)
+					}
+				}
+			}
+			return out, true
+		}
+		return fieldValues(x, field, 0)
+	}
+	switch x := v.(type) {
+	case *ssa.Field:
+		return all(fv(x.X, x.Field, 0))
+	case *ssa.UnOp:
+		if fa, ok := x.X.(*ssa.FieldAddr); ok && x.Op == token.MUL {
+			if al, ok := fa.X.(*ssa.Alloc); ok {
+				return all(fv(&ssa.UnOp{Op: token.MUL, X: al}, fa.Field, 0))
+			}
+		}
+		if vals, ok := cellValues(x.X); ok {
+			return all(vals, true)
+		}
+	case *ssa.Parameter:
+		fn := x.Parent()
+		calls, asValue := directCallSites(p, fn)
+		if asValue || len(calls) == 0 {
+			return false
+		}
+		for i, q := range fn.Params {
+			if q != x {
+				continue
+			}
+			var args []ssa.Value
+			for _, call := range calls {
+				if i >= len(call.Common().Args) {
+					return false
+				}
+				args = append(args, call.Common().Args[i])
+			}
+			return all(args, true)
+		}
+	}
+	return false
 }
